@@ -186,6 +186,8 @@ def exec_sequence(specs, clear=True):
                         keep = [i for i in range(len(arrays)) if not (consts and i in consts)]
                         call_arrays = [arrays[i] for i in keep]
                         call_arrays2 = [arrays2[i] for i in keep] if arrays2 else []
+                    if not callable(e):
+                        raise TypeError("an expression was requested, a %s was returned: %.80r" % (type(e).__name__, e))
                     idx = next((i for i, o in enumerate(objs) if o is e), None)
                     if idx is None:
                         objs.append(e)
@@ -204,6 +206,8 @@ def exec_sequence(specs, clear=True):
                     res["kind"] = type(e).__name__
                 elif api == "path":
                     p = ctg.array_contract_path(inputs, output, optimize=opt, cache=cache, **sizes, **ck)
+                    if callable(p) or not isinstance(p, (list, tuple)):
+                        raise TypeError("a path was requested, a %s was returned" % type(p).__name__)
                     res["path"] = tuple(tuple(int(i) for i in st) for st in p)
                 elif api == "tree":
                     t = ctg.array_contract_tree(inputs, output, optimize=opt, **sizes, **ck,
@@ -357,6 +361,26 @@ def pools():
     P["unhashable-kwargs"] = ([var(B3, kwargs=k) for k in ukws], ["expr", "array_contract"])
     P["unhashable-kwargs-einsum"] = ([dict(eq="ab,bc->ca", shapes=B2["shapes"], kwargs=k) for k in ukws],
                                      ["einsum", "einsum_expr"])
+    # the same contraction and the same hashable `optimize` requested as a PATH (array_contract_path, no
+    # kwargs -> frozenset()) and as an OPTION-FREE EXPRESSION (array_contract_expression / einsum_expression
+    # without any kwarg -> the very same key): the two caches must be separate maps
+    pe = []
+    for base, eq in ((B3, "ab,bc,cd->ad"), (dict(inputs=B2["inputs"], output=("c", "a"), shapes=B2["shapes"]), "ab,bc->ca")):
+        n = len(base["inputs"])
+        opts = ["auto", "greedy", "optimal", _default_path(n), list(_default_path(n)), ("b",) if n == 2 else ("b", "c")]
+        if n == 3:
+            opts += [((1, 2), (0, 1)), [(0, 2), (0, 1)]]
+        for o in opts:
+            pe.append(var(base, eq=eq, optimize=o))
+    explicit = []
+    for m in range(len(pe)):
+        for a, b in (("path", "expr"), ("path", "einsum_expr")):
+            explicit += [[(m, a), (m, b)], [(m, b), (m, a)], [(m, a), (m, b), (m, a)], [(m, b), (m, a), (m, b)]]
+        explicit += [[(m, "path"), (m, "array_contract"), (m, "expr"), (m, "path")],
+                     [(m, "einsum"), (m, "path"), (m, "einsum_expr")]]
+        m2 = (m + 1) % len(pe)
+        explicit += [[(m, "path"), (m2, "expr"), (m, "expr"), (m2, "path")]]
+    P["path-vs-expr"] = (pe, ["path", "expr", "einsum_expr", "array_contract", "einsum"], explicit)
     P["kwargs-einsum"] = ([dict(eq="ab,bc,cd->ad", shapes=B3["shapes"], kwargs=k) for k in kws],
                           ["einsum", "einsum_expr"])
     P["canonicalize"] = ([var(B2, canonicalize=True), var(B2, canonicalize=False),
@@ -925,6 +949,58 @@ def real_trace(I, calls, which, can_hash_types):
     return obs, keys, norm, hcls
 
 
+def real_trace_mixed(I, kinds_calls, can_hash_types):
+    """path and expression requests interleaved against the real caches (both computations stubbed);
+    -> per kind: (calls, obs with producer indices local to the kind, keys, compute args, hcls), or a
+    string describing an object that crossed from one cache to the other"""
+    I._CONTRACT_EXPR_CACHE.clear()
+    I._PATH_CACHE.clear()
+    orig = {n: getattr(I, n) for n in ("_build_expression", "find_path")}
+    cur = [0]
+    log = {}
+
+    def mkstub(name):
+        def stub(*a, **k):
+            log[cur[0]] = (name, a, k)
+            return Token(cur[0])
+        return stub
+    for n in orig:
+        setattr(I, n, mkstub(n))
+    per = {"path": {"calls": [], "obs": [], "norm": [], "hcls": [], "glob": []},
+           "expr": {"calls": [], "obs": [], "norm": [], "hcls": [], "glob": []}}
+    crossed = None
+    try:
+        for i, (kind, c) in enumerate(kinds_calls):
+            cur[0] = i
+            d = per[kind]
+            inputs = [list(t) for t in c["inputs"]] if c["lists"] else c["inputs"]
+            output = list(c["output"]) if (c["lists"] and c["output"] is not None) else c["output"]
+            d["calls"].append(c)
+            d["hcls"].append(isinstance(c["optimize"], can_hash_types))
+            d["glob"].append(i)
+            if kind == "expr":
+                r = I.array_contract_expression(inputs, output, size_dict=c["size_dict"], shapes=c["shapes"],
+                                                optimize=c["optimize"], canonicalize=c["canonicalize"],
+                                                cache=c["cache"], **c["kwargs"])
+            else:
+                r = I.array_contract_path(inputs, output, size_dict=c["size_dict"], shapes=c["shapes"],
+                                          optimize=c["optimize"], canonicalize=c["canonicalize"], cache=c["cache"])
+            if r.i not in d["glob"]:
+                crossed = "call %d (%s request) received the object computed by call %d (a %s request)" % (
+                    i, kind, r.i, kinds_calls[r.i][0])
+                break
+            d["obs"].append((0 if i in log else 1, d["glob"].index(r.i)))
+            d["norm"].append(log.get(i))
+        keys = {"path": list(I._PATH_CACHE.keys()), "expr": list(I._CONTRACT_EXPR_CACHE.keys())}
+        same_dict = I._PATH_CACHE is I._CONTRACT_EXPR_CACHE
+    finally:
+        for n, f in orig.items():
+            setattr(I, n, f)
+        I._CONTRACT_EXPR_CACHE.clear()
+        I._PATH_CACHE.clear()
+    return per, keys, crossed, same_dict
+
+
 # =====================================================================================
 def run(ctx):
     from vlib.core import standard_proof_steps, VERIF, REPO
@@ -1026,6 +1102,48 @@ def run(ctx):
             ctx.count("corr:style:" + style)
             ctx.case(("corr", repr(calls)), nontrivial=("hit" in feats and "miss" in feats),
                      sample={"which": which, "calls": repr(calls)[:600], "observed": repr(obs)} if si < 2 else None)
+        # ---- path and expression requests interleaved: the two caches are separate maps, so the model's
+        # prediction is the two sub-sequences run independently (C13_two_caches_transparent) -------------
+        for si in range(ctx.n(60, 600)):
+            style = rng.choice(STYLES)
+            nets = [gen_net(rng, style) for _ in range(rng.randint(1, 2))]
+            kc = []
+            for _ in range(rng.randint(3, 7)):
+                if kc and rng.random() < 0.55:
+                    k0, c0 = rng.choice(kc)
+                    kc.append(("expr" if k0 == "path" else "path", dict(c0)))     # the same call through the other function
+                else:
+                    c = gen_call(rng, rng.choice(nets), "path")                     # option-free: kwargs = {}
+                    c["lists"] = False
+                    kc.append((rng.choice(["path", "expr"]), c))
+            try:
+                per, keys, crossed, same_dict = real_trace_mixed(I, kc, can_hash_types)
+            except Exception as ex:
+                ctx.count("corr_skipped_impl_raise:%s" % type(ex).__name__)
+                continue
+            ctx.count("corr:mixed_path_expr")
+            if any(a[0] != b[0] and a[1] == b[1] for a in kc for b in kc):
+                ctx.count("corr:mixed_same_call_through_both_functions")
+            rec0 = {"which": "mixed", "style": style, "calls": repr(kc)}
+            if crossed or same_dict:
+                rec0["correspondence"] = "the path cache and the expression cache are separate dicts"
+                ctx.fail("model and implementation disagree: %s" % (crossed or "_PATH_CACHE is _CONTRACT_EXPR_CACHE"),
+                         rec0, found_input=False)
+                continue
+            for kind in ("path", "expr"):
+                d = per[kind]
+                if not d["calls"]:
+                    continue
+                L = Lit()
+                raws = "[%s]" % "; ".join(raw_lit(L, c, h) for c, h in zip(d["calls"], d["hcls"]))
+                keyl = "[%s]" % "; ".join(L.pv(k) for k in keys[kind])
+                obsl = "[%s]" % "; ".join("(%d, %d)" % o for o in d["obs"])
+                env = L.env()
+                kx = "expr_key_expr" if kind == "expr" else "path_key_expr"
+                fb = "expr_typeerror_fallback" if kind == "expr" else "path_typeerror_fallback"
+                cases.append(("mixed%d.%s" % (si, kind), "observe_raw %s %s %s [] %s" % (env, kx, fb, raws),
+                              "(Some (%s, %s), [])" % (obsl, keyl)))
+                records.append(dict(rec0, kind=kind, observed=repr(d["obs"]), keys=repr(keys[kind])))
         ctx.log("correspondence: %d sequences run against the real caches, %d Coq cases" % (nseq, len(cases)))
         failing = ctx.coq_cases("c13", ["Base", "CacheState", "CacheKey"], cases, chunk=max(8, len(cases) // 16 + 1))
         ctx.log("correspondence: %d cases evaluated in Coq, %d disagree" % (len(cases), len(failing)))
@@ -1064,7 +1182,9 @@ def run(ctx):
     nseq_pool = ctx.n(90, 700)
     batch_sub = []
     total = 0
-    for pname, (members, apis) in list(P.items()) + [(k, (v[0], v[1])) for k, v in K.items()]:
+    for pname, pdef in list(P.items()) + [(k, (v[0], v[1])) for k, v in K.items()]:
+        members, apis = pdef[0], pdef[1]
+        explicit = pdef[2] if len(pdef) > 2 else []
         known_key = K[pname][2] if pname in K else None
         seqs = []
         # every ordered pair of distinct members, once, for one api each (exhaustive over pairs)
@@ -1081,9 +1201,21 @@ def run(ctx):
         if not ctx.quick:
             for tr in itertools.permutations(range(min(len(members), 5)), 3):
                 seqs.append(list(tr))
+        if explicit:
+            # the hand-built sequences always run; the random ones are thinned to keep the pool's share
+            seqs = rng.sample(seqs, min(len(seqs), nseq_pool)) + [("explicit", e) for e in explicit]
         for sq in seqs:
-            mode = rng.random()
-            apis_here = [rng.choice(apis)] * len(sq) if mode < 0.6 else [rng.choice(apis) for _ in sq]
+            if isinstance(sq, tuple):
+                apis_here = [a for _, a in sq[1]]
+                sq = [m for m, _ in sq[1]]
+                for (ma, aa), (mb, ab) in zip(zip(sq, apis_here), zip(sq[1:], apis_here[1:])):
+                    if ma == mb and aa == "path" and ab in ("expr", "einsum_expr"):
+                        ctx.count("feature:path_then_option_free_expression")
+                    if ma == mb and ab == "path" and aa in ("expr", "einsum_expr"):
+                        ctx.count("feature:option_free_expression_then_path")
+            else:
+                mode = rng.random()
+                apis_here = [rng.choice(apis)] * len(sq) if mode < 0.6 else [rng.choice(apis) for _ in sq]
             by_cache = {}
             if pname.startswith("unhashable-kwargs"):
                 def _unh(m):
